@@ -41,7 +41,7 @@ SPLIT_KINDS = ["tuple:2", "tuple:3", "multi:s,a2,t", "mixed"]
 
 
 def _gen_case(rng, strategy):
-    combos = gens.gen_combos(rng, allow_mixed=True,
+    combos = gens.gen_combos(rng, allow_mixed=True, exotic=True,
                              max_settings=64 if strategy["name"] in REAL else 400)
     spelling = rng.choice(["dict", "tuple", "list"] + (["single"] if len(combos) == 1 else []))
     split = rng.random() < 0.3
